@@ -37,12 +37,12 @@ func (o *zzOrigin) GetPredecessor() (chord.VNode, error)  { return nil, o.fail()
 func (o *zzOrigin) RequestToJoin(chord.VNode) (chord.VNode, []chord.VNode, error) {
 	return nil, nil, o.fail()
 }
-func (o *zzOrigin) FinishJoin(bool, bool) error                     { return o.fail() }
-func (o *zzOrigin) RequestToLeave(chord.VNode) error                { return o.fail() }
-func (o *zzOrigin) FinishLeave(bool, bool) error                    { return o.fail() }
-func (o *zzOrigin) Put(context.Context, []byte, []byte) error       { return o.fail() }
-func (o *zzOrigin) Get(context.Context, []byte) ([]byte, error)     { return nil, o.fail() }
-func (o *zzOrigin) Delete(context.Context, []byte) error            { return o.fail() }
+func (o *zzOrigin) FinishJoin(bool, bool) error                        { return o.fail() }
+func (o *zzOrigin) RequestToLeave(chord.VNode) error                   { return o.fail() }
+func (o *zzOrigin) FinishLeave(bool, bool) error                       { return o.fail() }
+func (o *zzOrigin) Put(context.Context, []byte, []byte) error          { return o.fail() }
+func (o *zzOrigin) Get(context.Context, []byte) ([]byte, error)        { return nil, o.fail() }
+func (o *zzOrigin) Delete(context.Context, []byte) error               { return o.fail() }
 func (o *zzOrigin) PrefixAppend(context.Context, []byte, []byte) error { return o.fail() }
 func (o *zzOrigin) PrefixList(context.Context, []byte) ([][]byte, error) {
 	return nil, o.fail()
